@@ -196,6 +196,7 @@ Fails(e) == CASE e.op = "vec_read" -> FailsVec(e) \o FailsLefts(e)
               [] e.op = "cs_read" -> FailsCSRead(e)
               [] e.op = "roundtrip" /\ e.mode = "C01" -> FailsC01(e)
               [] e.op = "roundtrip" /\ e.mode = "C02" -> FailsC02(e)
+              [] e.op = "driver_crash" -> <<"the process using the library was killed by the Go runtime (memory corruption): " \o e.detail>>
               [] OTHER -> <<"unknown event">>
 
 Init == l = 1 /\ rej = <<>>
